@@ -1,7 +1,7 @@
 (* Correspondence checker for C20: the model's executable definitions evaluated by vm_compute on the records the
    real encoding/csv reader produced, with the real caster's verdict per field, against what the real
    ParseCsvTextIntoTable / ColumnAndRowSize / Header / Cell / CellString did on the same text. *)
-From Coq Require Import List String QArith ZArith Bool Arith.
+From Coq Require Import List String QArith Qabs ZArith Bool Arith.
 From Crem Require Import Base.Res Base.Fl CsvTable GoCast.
 Import ListNotations.
 Local Open Scope nat_scope.
